@@ -36,6 +36,9 @@ type Outage struct {
 	InFlight      []string `json:"in_flight"`    // request kinds started right before the cut: open-up | open-down | meta | call | write | read
 	During        []string `json:"during"`       // request kinds issued after the cut, before recovery
 	BackToBack    bool     `json:"back_to_back"` // a second cut 0-3 messages after recovery
+	// DeadDials: that many redials succeed as a dial but hand back a transport that is already dead: the very first write of the
+	// connect handshake fails (seeded change C05/m5: a connection-closed error at that point ended the redialling for good)
+	DeadDials int `json:"dead_dials,omitempty"`
 }
 
 type Case struct {
@@ -77,6 +80,18 @@ func run(c Case, k *ev.Case) *ev.Failure {
 	conflictID := uuid.Nil
 	b2bAfter := -1                   // cut the recovered connection after that many further client messages
 	maybeLost := map[uuid.UUID]int{} // resume responses that were sent but cut off with the link
+	deadDialsLeft := 0
+	w.OnLink = func(l *sim.Link) {
+		mu.Lock()
+		kill := l.Index > 0 && deadDialsLeft > 0
+		if kill {
+			deadDialsLeft--
+		}
+		mu.Unlock()
+		if kill {
+			l.Sever()
+		}
+	}
 	w.FailDial = func(n int) bool {
 		mu.Lock()
 		defer mu.Unlock()
@@ -189,6 +204,7 @@ func run(c Case, k *ev.Case) *ev.Failure {
 		mu.Lock()
 		handshakeCuts = o.HandshakeCuts
 		dialFailsLeft = o.DialFails
+		deadDialsLeft = o.DeadDials
 		resumeCut = ""
 		refuseID, conflictID = uuid.Nil, uuid.Nil
 		if len(streams) > 0 {
@@ -901,6 +917,7 @@ func gen(t *rapid.T) Case {
 	for i := 0; i < no; i++ {
 		o := Outage{Refuse: -1}
 		o.HandshakeCuts = rapid.SampledFrom([]int{0, 0, 0, 1, 2}).Draw(t, "hscuts")
+		o.DeadDials = rapid.SampledFrom([]int{0, 0, 1, 2}).Draw(t, "deaddials")
 		o.DialFails = rapid.SampledFrom([]int{0, 0, 1, 2}).Draw(t, "dialfails")
 		if nu+nd > 0 {
 			switch rapid.IntRange(0, 7).Draw(t, "resumefault") {
@@ -917,6 +934,12 @@ func gen(t *rapid.T) Case {
 		o.InFlight = rapid.SliceOfN(rapid.SampledFrom(kinds), 0, 3).Draw(t, "inflight")
 		o.During = rapid.SliceOfN(rapid.SampledFrom(kinds), 0, 3).Draw(t, "during")
 		o.BackToBack = rapid.IntRange(0, 5).Draw(t, "b2b") == 0
+		if room := 4 - o.DialFails - o.HandshakeCuts; o.DeadDials > room { // the library backs off 100 ms x 2^n between failed attempts
+			o.DeadDials = room
+			if o.DeadDials < 0 {
+				o.DeadDials = 0
+			}
+		}
 		c.Outages = append(c.Outages, o)
 	}
 	return c
